@@ -7,7 +7,8 @@ request : trace <H|N|S|G> <nfiles> [c<k>|-] <layer>,<layer>,…
                 | s<digits> (location replaced by a symlink to a list with these packages)
                 | a<n> / r<n> (the directory n levels above the file — the files sit up to three directories deep
                   — is deleted by a whiteout / replaced by a regular file; every file below goes)
-          c<k>  = the context is cancelled once the trace has made k re-extractions (k ≥ 1); - or absent = never
+          c<k>  = the context is cancelled once the trace has made k re-extractions; c0 = a detector cancels it after the
+                  extraction of the final view and before the trace starts; - or absent = never
           history mode (an appended p: the extractor's ToPURL returns nil; identity is then name and version, same answers): H = one history entry per layer (CreatedBy "cmd<i>"), N = no history, S = last entry dropped,
           G = one extra non-empty entry appended
 reply   : n=<chain layers> pk=<tok>,<tok>…  spec=<tok>,…  al=<ord|e>:<hex cmd|->,…   (pk/spec sorted; "-" when empty)
@@ -88,11 +89,12 @@ versions 1 and 2 (purls that differ only in the version). The model's `Pkg` equa
 def pkgName (p : Pkg) : Nat := (p - 1) % 4
 def pkgVersion (p : Pkg) : Nat := (p - 1) / 4
 
-/-- `CmpPackages`: name, then version, then (same extractor) location -/
-def pkgLt (a b : Nat × Pkg) : Bool :=
-  let ka := (pkgName a.2, pkgVersion a.2, fileRank a.1)
-  let kb := (pkgName b.2, pkgVersion b.2, fileRank b.1)
-  ka.1 < kb.1 || (ka.1 = kb.1 && (ka.2.1 < kb.2.1 || (ka.2.1 = kb.2.1 && ka.2.2 < kb.2.2)))
+/-- `CmpPackages`: name, then version, then extractor name, then location (file ids ≥ nf: the second extractor) -/
+def pkgLt (nf : Nat) (a b : Nat × Pkg) : Bool :=
+  let nf := if nf = 0 then 1 else nf
+  let ka := [pkgName a.2, pkgVersion a.2, a.1 / nf, fileRank (a.1 % nf)]
+  let kb := [pkgName b.2, pkgVersion b.2, b.1 / nf, fileRank (b.1 % nf)]
+  decide (ka < kb)
 
 def parseCancel (s : String) : Option (Option Nat) :=
   if s = "-" then some none
@@ -115,24 +117,28 @@ def run (mode0 : String) (nf : Nat) (cancelAt : Option Nat) (ls : String) : Stri
         | some cms =>
           let n := cms.length
           if n = 0 then "scanerr" else     -- ScanContainer: "no chain layers found"
-          let img : Nat → History := fun f => chainHistory cms (v1.map fun ops => ops.getD f .keep)
-          let pkgs : List (Nat × Pkg) := isort pkgLt ((List.range nf).flatMap fun f =>
+          -- the model's "file" is the trace's cache key (location, extractor): with a second extractor reading the same
+          -- files (mode letter x) the ids nf … 2nf-1 are the same locations as seen by that extractor
+          let two := mode0.toList.contains 'x'
+          let img : Nat → History := fun f => chainHistory cms (v1.map fun ops => ops.getD (f % nf) .keep)
+          let pkgs : List (Nat × Pkg) := isort (pkgLt nf) ((List.range (if two then 2 * nf else nf)).flatMap fun f =>
             ((viewAt (img f) (n - 1)).getD []).map fun p => (f, p))
+          let tag (f : Nat) : String := if f < nf then s!"f{f}" else s!"g{f - nf}"
           let origins := populate img cancelAt pkgs St.empty
           let toks := (pkgs.zip origins).map fun ((f, p), o) =>
             match o with
-            | none => s!"f{f}p{p}@nil"
+            | none => s!"{tag f}p{p}@nil"
             | some o =>
               match details cms o with
               | some (i, l, c) =>
-                s!"f{f}p{p}@{i}:{match l with | some k => toString k | none => "e"}:{if c = "" then "-" else hexOfStr c}"
-              | none => s!"f{f}p{p}@?"
+                s!"{tag f}p{p}@{i}:{match l with | some k => toString k | none => "e"}:{if c = "" then "-" else hexOfStr c}"
+              | none => s!"{tag f}p{p}@?"
           let spec := pkgs.map fun (f, p) =>
             match originSpec (img f) p with
-            | some L => s!"f{f}p{p}@{L}"
-            | none => s!"f{f}p{p}@none"
+            | some L => s!"{tag f}p{p}@{L}"
+            | none => s!"{tag f}p{p}@none"
           -- the harness also runs a standalone extractor reporting one package "sa" (with a location): not traceable
-          let toks := toks ++ [if traceable false 1 then "sa@?" else "sa@nil"]
+          let toks := if mode0.toList.contains 's' then toks else toks ++ [if traceable false 1 then "sa@?" else "sa@nil"]
           let al := (specChain v1.length hist).map fun cm =>
             s!"{match cm.layer with | some k => toString k | none => "e"}:{if cm.cmd = "" then "-" else hexOfStr cm.cmd}"
           s!"n={n} pk={joinWith "," (sortStr toks)} spec={joinWith "," (sortStr spec)} al={joinWith "," al}"
@@ -140,7 +146,13 @@ def run (mode0 : String) (nf : Nat) (cancelAt : Option Nat) (ls : String) : Stri
 def handle (line : String) : String :=
   -- a trailing p: the extractor has no PURL for its packages; identity is then name and version, which is what
   -- the ids stand for anyway, so the answers are the same
-  let okMode (m : String) := ["H", "N", "S", "G", "Hp", "Np", "Sp", "Gp"].contains m
+  -- after the history letter: p (PURL-less extractor) and one of i m e s: what goes wrong AFTER the extraction of the final
+  -- view (inconsistent advisories, a finding without advisory, a failing detector, a failing standalone extractor).
+  -- None of it may change the attribution; s only takes the standalone extractor's own package away.
+  -- x: a second extractor reads the same files and reports the same packages under other PURLs (tokens g<file>p<pkg>).
+  let okMode (m : String) := match m.toList with
+    | h :: fl => "HNSG".toList.contains h && fl.all (fun c => "pimesx".toList.contains c)
+    | [] => false
   match line.splitOn " " with
   | ["trace", mode, nf, ls] =>
     match nf.toNat? with
